@@ -173,8 +173,10 @@ func c17Scns() []c17Scn {
 		{Name: "disjoint-id writers", Setup: base, Clients: [][]c17Call{{callAddVertex("g1", "c", "P"), callAddEdge("g1", "f", "c", "a", "x")}, {callAddVertex("g1", "d", "Q"), callAddEdge("g1", "h", "d", "b", "y")}}},
 		{Name: "two relabels || reader", Setup: base, Clients: [][]c17Call{{callAddVertex("g1", "a", "Q")}, {callAddVertex("g1", "a", "R")}, {callGetVertex("g1", "a")}}},
 	}
-	// every unordered pair (a call may race with itself) of an 8-call alphabet whose ids are forced to
-	// collide, on a graph that already holds the edge e: a->b
+	// every unordered pair (a call may race with itself) of a 9-call alphabet whose ids are forced to
+	// collide, on a graph that already holds the edges e: a->b and h: c->b (two deletes of different
+	// vertices then work on different incident edges: shared scratch state shows)
+	pairSetup := append(append([]c17Call{}, withEdge...), callAddVertex("g1", "c", "P"), callAddEdge("g1", "h", "c", "b", "x"))
 	alpha := []c17Call{
 		callAddVertex("g1", "a", "R"),         // relabel an endpoint
 		callAddEdge("g1", "e", "a", "b", "x"), // re-add the stored edge
@@ -182,12 +184,13 @@ func c17Scns() []c17Scn {
 		callDelEdge("g1", "e"),
 		callDelVertex("g1", "a"),
 		callDelVertex("g1", "b"),
-		callAddVertex("g1", "c", "P"),         // unrelated new vertex
+		callDelVertex("g1", "c"),              // a vertex with an incident edge of its own
+		callAddVertex("g1", "d", "P"),         // unrelated new vertex
 		callAddEdge("g1", "f", "a", "b", "x"), // second edge between the same endpoints
 	}
 	for i := range alpha {
 		for j := i; j < len(alpha); j++ {
-			out = append(out, c17Scn{Name: "pair: " + alpha[i].Name + " || " + alpha[j].Name, Setup: withEdge, Clients: [][]c17Call{{alpha[i]}, {alpha[j]}}})
+			out = append(out, c17Scn{Name: "pair: " + alpha[i].Name + " || " + alpha[j].Name, Setup: pairSetup, Clients: [][]c17Call{{alpha[i]}, {alpha[j]}}})
 		}
 	}
 	return out
@@ -329,7 +332,7 @@ func c17Scenarios(tier string) []schedScenario {
 func C17(tier string, args []string) int {
 	w := &schedWorker{prop: "C17", scenarios: c17Scenarios(tier)}
 	return runSched("C17", tier, args, w,
-		"12 scenarios of 2-3 concurrent clients with 1-2 calls each (same-id writes, add/delete of an edge and of its endpoint, re-adding an edge while reading it, graph creation/deletion against writes, bulk load against a traversal and against a single write, disjoint writers, relabels against a reader) on the real GripServer handlers; preemption bound 2 (3 thorough) with state cache; every execution's (return values, final observation of all graphs) must be one of the outcomes of the sequential orders of the same calls, computed by running the real code unscheduled; no panic, no deadlock",
+		"13 hand-written scenarios of 2-3 concurrent clients with 1-2 calls each plus all 45 unordered pairs of a 9-call alphabet with colliding ids on a graph holding two edges (same-id writes, add/delete of an edge and of its endpoint, re-adding an edge while reading it, graph creation/deletion against writes, bulk load against a traversal and against a single write, disjoint writers, relabels against a reader) on the real GripServer handlers; preemption bound 2 (3 thorough) with state cache; every execution's (return values, final observation of all graphs) must be one of the outcomes of the sequential orders of the same calls, computed by running the real code unscheduled; no panic, no deadlock",
 		[]string{
 			"scheduling points: before every key-value call of memkv, at memkv's writer lock, at every channel/goroutine/wait-group operation of server/api.go, kvgraph, kvindex, the pipeline and its processors; key-value calls themselves are atomic (memkv is a serialisable store)",
 			"the sequential reference is the implementation itself, so C03's sequential defects are not charged again; label-index components are excluded from the final observation for the same reason",
